@@ -12,7 +12,7 @@ def run(tier):
         n = q if tier == "quick" else t
         env = {"H_SPEC": spec, "H_LEN": str(n)}
         if spec in REACH:
-            env["H_REACH"] = REACH[spec]
+            env["H_REACH"] = str(min(n, int(REACH[spec])))
         conds.append(Cond("h_parse_str.py", "complete", to, twin="reach", path_timeout=to / 2, env=env))
     # a star directly followed by its own body inside a counted repetition (known finding C05-starrep on 'aac')
     conds.append(Cond("h_parse_str.py", "complete", to, path_timeout=to / 2, env={"H_SPEC": "starrep", "H_LEN": "3" if tier == "quick" else "5"}))
